@@ -360,7 +360,7 @@ PROPS["C08"] = {
 
 _PE_RULE = ("histories (25-110 scheduler decisions, then a fault-free drain to a fixed point) on the REAL pod controller (pkg/controller/pod Reconcile) and PodENI controller "
             "(pkg/controller/pod-eni Reconcile, gcCRPodENIs, gcSecondaryENI/gcMemberENI) for 1-3 pod names over a fake API server (controller-runtime fake client behind a wrapper that owns "
-            "optimistic concurrency: never-reused versions, Conflict on stale Update/Status().Update, none on Patch/Delete, finalizer + deletionTimestamp) and a fake cloud (interfaces with tags, "
+            "optimistic concurrency: never-reused versions, Conflict on stale Update/Status().Update, none on Patch/Delete, finalizer + deletionTimestamp) and a fake cloud (interfaces with tags, type - the type filter of DescribeNetworkInterface is honoured -, "
             "creation time, attachment; foreign interfaces of every tag/age/type/status). Every API-server / cloud call of an actor's main line is parked until a seeded scheduler releases it "
             "(possibly failing it), so reconciliations of the two controllers and passes of the two collectors interleave call by call with pod creation, graceful termination, completion, removal, "
             "recreation under the same name on another node or as a pod that is never scheduled (Pending: the pod controller's predicate drops it, the record collector has to keep its record alive), and virtual-clock steps (multiples of 70 s: no age equals the 600 s grace, TTLs are 35 mod 70); parallel create/attach workers run through "
